@@ -240,6 +240,14 @@ def _mk(t, salt):
     """the object a token denotes, as an object with a past (past.mkperm_u / mkmesh_u: fresh, used, or derived from
     a used object through another API route); other kinds and malformed tokens: the plain constructor"""
     if not _PAST[0]:
+        if t[0] == "M":
+            # the cells are handed over in an order that depends on the position of the token in the line (equal patterns
+            # at different positions are equal objects built differently: CPython iterates a set in insertion order
+            # when entries collide)
+            p, c = t[1:].split("/")
+            if used.is_perm(pseq(p)):
+                from permuta import MeshPatt, Perm
+                return MeshPatt(Perm(pseq(p)), past._shading(pcells(c), (tuple(pseq(p)), salt)))
         return c08.build(t)
     if t[0] == "P":
         v = pseq(t[1:])
@@ -291,6 +299,24 @@ def impl_mprops(l):
         return "dedup"
     if res(list(bobj)) != b:
         return "fixed"
+    # the same patterns built again, every shading with its cells inserted in another order (equal objects): the same
+    # basis - as a tuple, so with the same element order - and the same hash
+    from permuta import MeshPatt as _MP
+    for rot in (1, 2):
+        again = []
+        for o in objs:
+            if isinstance(o, _MP) and type(o) is _MP and len(o.shading) > 1:
+                cs = sorted(o.shading)
+                cs = cs[rot % len(cs):] + cs[:rot % len(cs)]
+                again.append(_MP(o.pattern, frozenset(cs[::-1] if rot == 2 else cs)))
+            else:
+                again.append(o)
+        try:
+            b2 = MeshBasis(*again)
+        except TypeError:
+            return "rebuilt-raises"
+        if [_mv(m) for m in b2] != b or b2 != bobj or hash(b2) != hash(bobj):
+            return "rebuilt"
     if len(set(b)) != len(b) or any(p != q and mesh_in_mesh(q, p) for p in b for q in b):
         return "antichain"
     inp = [(tuple(o), frozenset()) if isinstance(o, Perm) else _mv(o) for o in objs]
